@@ -24,7 +24,7 @@ CHECKS["C02"] = dict(
          "a bounded document family, and then acts as the oracle of trace validation: every recorded evaluation of the real evaluator "
          "(systematic families + seeded random typed expressions, rendered to text and run through XPathProcessorImpl/XPath::execute) must equal Eval.",
     note="Trusted: TLC; the AST-to-text renderer; the node-id projection of the harness. Numbers outside the dyadic domain (m/8, |x|<2^22) are dropped, "
-         "not judged; namespace axis, key(), document(), extension functions are not yet generated.",
+         "not judged; namespace nodes never reach a delivered node-set here (C12 has them); key() and document() are C15's / C01's.",
     technique="TLA+ executable semantics (TLC) as oracle; trace validation of recorded evaluations; TLC-checked laws of the definition")
 CHECKS["C11"] = dict(
     category="model_checking", design_ref="DESIGN.md §5 C11",
@@ -38,7 +38,8 @@ CHECKS["C09"] = dict(
     category="model_checking", design_ref="DESIGN.md §5 C09",
     text="XPathSem!Matches is the XSLT 5.2 definition itself (exists an ancestor-or-self from which the pattern, evaluated as an expression, selects the node). "
          "Systematic and seeded random patterns ('/', '//', positional/boolean/nested predicates, every node test, id() heads, unions) are compiled with "
-         "initMatchPattern and XPath::getMatchScore is asked for EVERY node of each document; TLC recomputes the match set from the definition and compares the sets.",
+         "initMatchPattern and XPath::getMatchScore is asked for EVERY node of each document; TLC recomputes the match set from the definition and compares the sets. "
+         "The same patterns as xsl:key match=P: key() must return exactly MatchSet(P) (KeyTable's own walk over elements, attributes and other nodes).",
     note="Trusted: TLC, renderer, node-id projection. PatternMatcherImpl.tla transcribes Xalan's right-to-left matcher (op-code compilation, stepPattern, "
          "doStepPredicate/handleFoundIndex); MC_Pattern checks it equals the definition except in named KD classes, each shown real. A rejected event is a KNOWN finding only "
          "if the recorded set equals the transcription's result and every differing node falls in a named class; anything else is a violation. "
@@ -50,7 +51,9 @@ CHECKS["C10"] = dict(
     text="TemplateRules.tla defines XSLT 5.5/2.6.2/5.6: per-alternative default priorities, import precedence by post-order of the import tree, "
          "last-wins, built-in rules, apply-imports restricted to the modules imported into the current rule's module. Seeded rule sets with import trees are "
          "rendered to stylesheet files, every node and attribute is pushed through apply-templates and the TraceListener reports which xsl:template ran; "
-         "TLC recomputes Winner / ImportsWinner (matching by the definition XPathSem!Matches) for every pick.",
+         "TLC recomputes Winner / ImportsWinner (matching by the definition XPathSem!Matches) for every pick. PatternTablesImpl.tla transcribes how a module files "
+         "its rules per node kind / name and both lookup loops of Stylesheet::findTemplate; MC_PatternTables checks them against 5.5 for every entry set, node and "
+         "admissible match relation within bounds, and finds the repaired id()/key() filing defect again when the repair is switched off.",
     note="Trusted: TLC, stylesheet renderer, TraceListener line numbers as template identity, derivation of apply-imports extents from the trace. "
          "Both lookup paths are driven: XalanTransformer (quiet conflict warnings) and XSLTEngineImpl with setQuietConflictWarnings(false) (harness/xsltd.cpp).",
     technique="TLA+ definition of template conflict resolution evaluated by TLC; trace validation of TraceListener picks")
@@ -68,7 +71,7 @@ CHECKS["C16"] = dict(
     category="model_checking", design_ref="DESIGN.md §5 C16",
     text="Sort.tla defines the processing order under xsl:sort as the unique stable lexicographic order (NaN first for numbers, document order among equal keys, "
          "also under descending). TLC checks on the definition that it is a permutation, ordered, stable and total for all key assignments from a pool; "
-         "seeded documents and 1-3 keys (literal/AVT attributes) are run in for-each and apply-templates and the observed (node, position(), last()) sequence "
+         "seeded documents (0-7 siblings; every 8th 17-70 siblings with 2-3 values per key) and 1-3 keys (literal/AVT attributes) are run in for-each and apply-templates and the observed (node, position(), last()) sequence "
          "must equal Sorted.",
     note="Trusted: TLC, renderer, TraceListener selection events. Text keys restricted to [a-z0-9]* (collation = code point); case-order/lang not exercised.",
     technique="TLA+ definition of sorting model-checked for its facets; trace validation of observed processing order and positions")
@@ -133,7 +136,8 @@ CHECKS["C20"] = dict(
          "buckets with stale references, free lists, rehash, compaction, growth, aliasing arguments, splice pointer assignments, block indices) refine set / sequence / function "
          "models (spec/core/Containers.tla) for all bounded operation histories. One shortest history per transition of those graphs (plus seeded random and simulated long "
          "histories) is replayed on the real templates in an ASan/UBSan build with an instance-counting element type, and TLC accepts every recorded step only if it is a step of "
-         "the abstract model.",
+         "the abstract model. XalanDOMStringPool / XalanDOMStringHashTable are driven against the pool contract of Containers.tla (prefix-closed strings in 1-2-101 buckets: "
+         "every ordered triple, plus long seeded histories with clear()).",
     note="Trusted: TLC and CommunityModules; harness/c20.cpp incl. the Counted lifetime instrumentation and the observation projection; tools/tlaparse.py; faithfulness of the Impl "
          "transcriptions (they choose inputs, never expected values); ASan/UBSan for memory outside the container.",
     technique="TLC refinement check of implementation-shaped container transcriptions against abstract models + per-transition behaviour export replayed on the real templates (sanitizer build) + TLC trace validation")
@@ -143,8 +147,9 @@ CHECKS["C03"] = dict(
     text="ApiProtocol.tla states the call/return contract of every public entry point (P1 every call returns, P2 a non-zero status comes with a message, P3 must-fail input classes "
          "fail and must-succeed classes succeed, P4 the object still works afterwards: a Probe after every call, no leak at the end). TLC model-checks that the step-wise acceptor "
          "used for trace validation accepts exactly the sequences satisfying the contract (all event sequences <= 5/6) and enumerates the input classes (6191 descriptors: "
-         "truncations, tag edits, illegal characters, broken UTF-8, unknown XSLT elements/attributes, non-expressions, deep nesting 100..100000, long names, number formats). "
-         "Every rendered input is pushed through every entry point (XalanTransformer, both C APIs, XPathEvaluator) in an ASan/UBSan/LSan build, process-isolated with a CPU-time "
+         "truncations, tag edits, illegal characters, broken UTF-8, unknown XSLT elements/attributes, non-expressions, deep nesting 100..100000, long names, number formats, "
+         "XML declaration versions, 1-23 decimal formats in one run). "
+         "Every rendered input is pushed through every entry point (XalanTransformer, both C APIs, XPathEvaluator) in an ASan/UBSan (incl. float-cast-overflow)/LSan build, process-isolated with a CPU-time "
          "limit, and TLC validates each recorded Call/Return/Probe/LeakCheck/Abort/Exit stream. TLA+ does not decide memory safety: the sanitizers are the observation instrument "
          "that turns undefined behaviour into a missing Return; the claim is bounded by the inputs executed; non-terminating stylesheets (programs) are excluded.",
     note="Trusted: tools/c03gen.py (renderer, cross-checked with expat), harness/c03.cpp (event logging, signal/terminate/sanitizer death callbacks), ASan/UBSan/LSan of GCC 12, TLC and "
@@ -196,7 +201,8 @@ CHECKS["C05"] = dict(
     text="Forms.tla defines the space of forms cfg = [src, ss, out, api] (324), Supported(cfg) as the complement of 12 named exclusions derived from the real API surface, and "
          "the single action Run(cfg) whose outcome is R(S,D,P), independent of cfg by construction; the callback target is a chunk log with Concat(chunks) = bytes and a "
          "short-counting handler must fail. TLC enumerates the 111 supported forms, checks the transcribed XalanOutputStream/XalanTransformerOutputStream against the chunk "
-         "protocol, and checks that the quick subset is pairwise covering. For each input the harness runs every selected form with the real API of that form (C++ overloads, "
+         "protocol, and checks that the quick subset is pairwise covering. Inputs: a hand-made mechanics corpus, text-boundary documents (one text node however the parser chunks it) "
+         "and generated stylesheet / document pairs. For each input the harness runs every selected form with the real API of that form (C++ overloads, "
          "XalanCAPI.h, the Xalan executable built from the same tree); TLC validates each execution: first run = reference, all others same status class with equal canonical trees.",
     note="Trusted: TLC; the harness drivers of each form and the DOM / source-tree walkers; Python parsing of bytes into trees (pyexpat, html.parser), independent of Xerces; "
          "control-experiment triage of the four known classes. R(S,D,P) itself is C01's subject. Not covered: disable-output-escaping, indent, byte-level differences of equal trees.",
